@@ -133,12 +133,19 @@ def sig_of(rc):
 # ----------------------------------------------------------------------------
 # calibration = clean-cache reference build under a syscall trace
 
+class CleanBuildFailed(Exception):
+    pass
+
+
 def calibrate(form, ref_dir):
     cache = os.path.join(ref_dir, 'cache-' + form)
     shutil.rmtree(cache, ignore_errors=True)
     log = os.path.join(ref_dir, 'trace-%s.log' % form)
     out = os.path.join(ref_dir, 'ref-%s.npy' % form)
     rc, tail = run_driver(form, cache, out, names=NAMES0, strace=['-y', '-o', log, '-e', 'trace=' + TRACE_CALLS])
+    if rc == 3:
+        raise CleanBuildFailed('a plain request for form %s into an empty cache (no faults, single process) failed: %s'
+                               % (form, tail[-900:]))
     if rc != 0 or not os.path.exists(out):
         raise RuntimeError('reference build of %s failed rc=%s: %s' % (form, rc, tail))
     writes = {}     # path -> [count, pid]
